@@ -65,6 +65,10 @@ CHECKS = {
          "Pairs of names over a hostile alphabet are produced by two of seven routes (literal, quoted list, string->symbol, macro output, eval, round trips) with nothing, a forced collection, garbage plus collections, the end of the evaluation or a collection at every k-th instruction in between, the first product kept or dropped; eq? must hold exactly for equal names, both conversion round trips must be identities, and the symbol table must match the allocated symbol cells at every observed collection.",
          "Reader-dependent routes are used only for names the reader spells as that symbol; data is injected as Cell values; forced collections use the verif hook.",
          "DESIGN.md section 4, C18"),
+ "C19": ("scenario grid + choice-sequence-generated mixed shapes, one isolated child process per scenario; oracle = exit status of the child (death by signal = native stack exhaustion), phases announced by the child attribute a death to an operation",
+         "Every cell of {cdr-list, car-list, nested vectors, quote chain, closure chain, continuation chain, non-tail recursion, nested call expression, nested let expression} x {read, quote-evaluate, build at run time, keep live across a forced collection, equal?, write/convert to result, drop, evaluate} that makes sense (45 cells) is run at depth 10^3, 10^4 and 10^5 on an 8 MiB main thread and on a 2 MiB thread in the checked build (quick: 340 children incl. 48 random mixed-direction shapes) and additionally in the plain release build with 2000 random shapes (thorough: ~2600 children). A child that dies by a signal in an announced phase is a violation of the cell (direction, operation of that phase); normal exit with a result or a reported error is required. Exploration: 17 cells (long proper lists except quote-evaluate and drop, non-tail recursion, dropping/printing closure and continuation chains, shapes with fewer than 1000 non-cdr levels) hold at every depth; the other cells abort from 10^4 (2 MiB) or 10^5 levels and are recorded as known findings per cell, still executed and reported, but unable to raise a violation.",
+         "Signatures carry no depth/thread/profile, so a listed cell would not report a new, shallower recursion in the same operation. Allocation failure (8 GiB address-space limit) and timeouts are inconclusive. Quick leaves expr-*|eval at 10^4 on the main thread (about a minute of CPU each, compile time grows faster than n^2) to the thorough tier. A panic inside a scenario is reported under its own signature kind; an Err is accepted as 'reports an error'.",
+         "DESIGN.md section 4, C19"),
  "C20": ("exhaustive enumeration over a lexeme alphabet + proptest-driven Unicode token soup against a reference bracket matcher",
          "Every string of <=5 (quick) / <=7 (thorough) lexemes over the 11-lexeme alphabet with every cursor position is checked against the harness' own tokenizer and partner search (finite space enumerated completely), plus random Unicode token soup with random cursors. Exploration: holds on everything enumerated/generated, nothing beyond.",
          "Trusts the harness' reference tokenizer/partner search; random texts use the SUT scanner for token spans (checked by C11).",
